@@ -191,6 +191,17 @@ class Run:
                     src = self.ev(peel(m["args"][0])["args"][0])
                     return self.mapv(peel(m["args"][1]), src)
                 raise Unsupported("collect of " + str(show(m))[:60])
+            if fn.endswith("mem::replace") and len(n["args"]) == 2:
+                tgt = n["args"][0]
+                while tgt.get("k") in ("Borrow", "Deref") and isinstance(tgt.get("arg"), dict):
+                    tgt = tgt["arg"]
+                cont, key = self.place(tgt)
+                r = self.rooted_at_self(tgt)
+                if r is not None:
+                    self.writes.append(r)
+                old_v = cont[key]
+                cont[key] = self.ev(n["args"][1])
+                return old_v
             if fn.endswith(("Clone::clone", "mem::take")):
                 return self.ev(n["args"][0])
             if fn.endswith("Box::<T>::new"):
@@ -209,6 +220,30 @@ class Run:
             return ("call", fn, tuple(str(self.ev(a))[:40] if a.get("k") not in ("Closure",) else "closure" for a in n["args"]))
         if k == "Closure":
             return ("closure", n.get("def"))
+        if k == "For":
+            # `for v in MAP.values_mut() { .. *v = PASS(<old *v>) .. }`: the map with the pass applied to every value, keys kept
+            it = peel(n["iter"])
+            while call_is(it, "IntoIterator::into_iter") and len(it["args"]) == 1:
+                it = peel(it["args"][0])
+            pb = strip_ref(n["pat"])
+            if call_is(it, "::values_mut") and len(it["args"]) == 1 and pb.get("k") == "Bind":
+                tgt = it["args"][0]
+                while tgt.get("k") in ("Borrow", "Deref") and isinstance(tgt.get("arg"), dict):
+                    tgt = tgt["arg"]
+                cont, key = self.place(tgt)
+                self.env[pb["id"]] = ("elem",)
+                self.ev(n["body"])
+                fin = self.env.pop(pb["id"])
+                if fin == ("elem",):
+                    return ("unit",)
+                if isinstance(fin, tuple) and len(fin) == 3 and fin[0] == "app" and fin[2] == ("elem",):
+                    r = self.rooted_at_self(tgt)
+                    if r is not None:
+                        self.writes.append(r)
+                    cont[key] = ("mapv", fin[1], cont[key], True)
+                    return ("unit",)
+                raise Unsupported("values_mut loop leaves " + str(fin)[:60])
+            raise Unsupported("loop over " + str(show(n["iter"]))[:60])
         raise Unsupported("node " + str(k))
 
     def app(self, fn, args):
